@@ -1,6 +1,10 @@
-import Precis.Model.Types
-import Precis.Gen.CoreTables
-import Precis.Gen.CtxTables
-import Precis.Gen.ProfTables
-import Precis.Gen.StdCase
-import Precis.Gen.Norm
+-- Root of the `Precis` library: everything the checks need is built by `lake build Precis driver`.
+import Precis.Props.C02
+import Precis.Props.C03
+import Precis.Props.C09
+import Precis.Props.C10
+import Precis.Props.C11
+import Precis.Props.C12
+import Precis.Props.C13
+import Precis.Props.C14
+import Precis.Props.C18
